@@ -48,7 +48,7 @@ BUDGET_S = {"quick": 400, "thorough": 3000}
 FWD = ["exactsolve", "custom_exactsolve", "cg", "bicgstab", "gmres", "broyden1"]
 BCK = ["default", "exactsolve", "cg", "bicgstab", "gmres", "broyden1"]
 PLACEMENTS = ["dense_leaf", "dense_derived", "mf_leaf", "mf_leaf_mv", "mf_derived", "add_shared", "add_two",
-              "matmul", "scale", "adj", "mf_unused", "jac_mod", "jac_fn", "add_dense", "matmul_dense"]
+              "matmul", "scale", "adj", "mf_unused", "jac_mod", "jac_fn", "add_dense", "matmul_dense", "sub_two"]
 JACS = ("jac_mod", "jac_fn")
 HERM_PL = ("dense_derived", "mf_derived")
 LEAF_PL = ("dense_leaf", "mf_leaf", "mf_leaf_mv", "mf_unused")      # the operator holds the leaf tensor itself
@@ -162,6 +162,18 @@ def cases(tier, seed):
                                 out.append(mk(plane="subset", place=place, fwd=fwd, bck=bck, E=em, Edtype=ed, dtype=dtype,
                                               n=3, ncols=2, req=req, order=order, cot=cot, reuse=(order != "2"),
                                               **_pat(em, pat)))
+    # ---- the operator object is given another tensor between forward and backward
+    for dtype in ["f64", "c128"]:
+        for place in ("mf_leaf", "mf_leaf_mv"):
+            for (em, ed) in emodes_for(dtype):
+                if ed == "real" and dtype == "c128":
+                    continue
+                for (fwd, bck) in [("custom_exactsolve", "exactsolve"), ("bicgstab", "cg"), ("cg", "bicgstab")]:
+                    for order_ in ["1", "1cg", "2"]:
+                        c = mk(plane="subset", place=place, fwd=fwd, bck=bck, E=em, Edtype=ed, dtype=dtype, n=3, ncols=2,
+                               req="all", order=order_, cot="dense", reuse=False, **_pat(em, BATCH3[0]))
+                        c["mut"] = 1
+                        out.append(c)
     order = {"method": 0, "placement": 1, "subset": 2}
     out.sort(key=lambda c: (c["vseed"] != 0, order[c["plane"]], c["n"]))
     return out
@@ -301,6 +313,13 @@ def build(cfg):
             q = leaf("Q", 0.5 * a0 - s, "A")
             adense = lambda: p + q
             mkA = lambda: sc.OpMVR(p) + LinearOperator.m(q, is_hermitian=False)
+        elif place == "sub_two":
+            # a difference of two operators (its adjoint is the difference of the adjoints)
+            s = 0.3 * sc._fixed(n, dt, 11)
+            p = leaf("P", 1.5 * a0 + s, "A")
+            q = leaf("Q", 0.5 * a0 + s, "A")
+            adense = lambda: p - q
+            mkA = lambda: sc.OpMVR(p) - sc.OpFull(q)
         elif place == "matmul_dense":
             gm = eye + 0.4 * sc._fixed(n, dt, 12)
             p = leaf("P", gm, "A")
@@ -465,6 +484,10 @@ def run_case(cfg):
     if not ferr <= 1e-6 * max(1.0, xref.detach().abs().max().item()):
         return {"viol": [], "obs": {"fwd": "mismatch"}, "status": "fwd-mismatch(C01)", "trivial": True}
 
+    if cfg.get("mut"):
+        # between the forward call and the backward pass the caller re-uses the operator object with another tensor
+        # (attribute assignment); the gradients still belong to the forward call
+        A.mat = (leaves["P"].detach() * 1.3 + 0.1)
     g = gen(cfg["vseed"] + 555)
     v = cotangent(cfg, tuple(xref.shape), xref.dtype, g)
     loss = contraction(x, v)
